@@ -130,6 +130,15 @@ def mk_obj(d):
     if n == 'Exit':
         return go.Exit(go.Color[d[1]]) if len(d) > 1 else go.Exit()
     if n == 'Door':
+        if DOOR_ASSIGN:
+            # a door built with another status and then set (Door.state is a plain public attribute; the library's own
+            # transition assigns it): cycles through the two other statuses
+            global _door_cycle
+            _door_cycle += 1
+            other = [s for s in STATUSES if s != d[1]][_door_cycle % 2]
+            door = go.Door(go.Door.Status[other], go.Color[d[2]])
+            door.state = go.Door.Status[d[1]]
+            return door
         return go.Door(go.Door.Status[d[1]], go.Color[d[2]])
     if n == 'Key':
         return go.Key(go.Color[d[1]])
@@ -157,6 +166,16 @@ _ALIASABLE = ('Floor', 'Wall', 'Exit', 'Key', 'MovingObstacle', 'Telepod', 'Beac
 def set_alias(flag):
     global ALIAS
     ALIAS = bool(flag)
+
+
+DOOR_ASSIGN = False  # swarm knob: doors are constructed with another status, then assigned the wanted one
+_door_cycle = 0
+
+
+def set_door_assign(flag):
+    global DOOR_ASSIGN, _door_cycle
+    DOOR_ASSIGN = bool(flag)
+    _door_cycle = 0
 
 
 FROM_SHAPE = False  # swarm knob: build grids with Grid.from_shape(factory=...) and assign the remaining cells
